@@ -7,7 +7,7 @@ EXTENDS Lexer, Json
 CONSTANTS MaxLen, Alphabet
 VARIABLES body, ctx, done
 vars == <<body, ctx, done>>
-Contexts == {"init", "ptrtable", "concat", "callarg", "asm", "twoline", "aftercode", "inif", "afterskipped", "afterelse", "charconst"}
+Contexts == {"init", "ptrtable", "concat", "callarg", "asm", "twoline", "aftercode", "inif", "afterskipped", "afterelse", "twocalls", "charconst"}
 Init == body = <<>> /\ ctx = "" /\ done = FALSE
 Next == /\ ~done
         /\ \/ Len(body) < MaxLen /\ \E x \in Alphabet : body' = Append(body, x) /\ UNCHANGED <<ctx, done>>
